@@ -405,6 +405,33 @@ Definition spec_of (c : caps) (b : command) : spec :=
   mkSpec (c_program b) (c_args b) (c_cwd b) (c_env b) (c_stdin b) (c_stdout b) (c_stderr b)
          (effective_timeout c b).
 
+(* ------------------------------------------------------------------ what the child is to see
+   The specification carries the program string UNTOUCHED (s_program = c_program, no
+   normalisation, no resolution), so both the child's argv[0] and the file that is executed
+   are determined by (s_program, s_cwd) alone.  What the platform backend is expected to make
+   of them is the POSIX reading of std::process::Command (chdir to the configured directory
+   in the child, then exec); this half is observed by the end-to-end stream, not proved:
+     * argv of the child = program :: args, byte for byte;
+     * a program starting with '/' names that file;
+     * a program containing '/' is a path relative to the configured cwd (to the
+       interpreter's own directory when no cwd is configured);
+     * a program without '/' is searched along PATH (relative PATH entries, too, are
+       relative to the configured cwd). *)
+Definition spec_argv (s : spec) : list str := s_program s :: s_args s.
+
+Inductive program_lookup :=
+  | LookupAbsolute (path : str)
+  | LookupRelative (dir : option str) (path : str)
+  | LookupSearch (dir : option str) (name : str).
+
+Definition lookup_of (program : str) (cwd : option str) : program_lookup :=
+  match program with
+  | 47 :: _ => LookupAbsolute program
+  | _ => if has_byte 47 program then LookupRelative cwd program else LookupSearch cwd program
+  end.
+
+Definition spec_lookup (s : spec) : program_lookup := lookup_of (s_program s) (s_cwd s).
+
 (* What a sequence of successful builder calls configures, read off the call list. *)
 Definition arg_texts (cs : list call) : list str :=
   flat_map (fun cl => match cl with CallArg t => [t] | _ => [] end) cs.
